@@ -19,7 +19,8 @@ Str gwalk(Rng& rng, size_t maxlen, bool complete);
 // point mutations
 Str mutate(Rng& rng, const Str& s, int nmut);
 // G-URI: structured
-struct UriGenOpts { int scheme = -1; int auth = -1; int maxSegs = 6; bool dotHeavy = false; bool noPctDots = false; bool longSeg = true; bool lengths = true; };
+struct UriGenOpts { int scheme = -1; int auth = -1; int maxSegs = 6; bool dotHeavy = false; bool noPctDots = false; bool longSeg = true; bool lengths = true;
+    bool huge = false; };   // now and then one component of 65535 / 65536 / 65537 / 70000 characters or a path of that many segments (16-bit counters, limits)
 // a string of exactly n characters that are legal in any component except the scheme (mix of unreserved, sub-delims and percent triplets)
 Str gen_exact_length(Rng& rng, size_t n);
 size_t special_length(Rng& rng);                    // one of 1,2,3,4,7,8,15,16,...,255,256,257,...,1024,4095,4096
